@@ -148,7 +148,7 @@ G3(t) == /\ Pc(t) = "g3"
          /\ UNCHANGED <<ptr, open, wire, outs, got, cur, dropped, fresh, script, res>>
 \* WakeOnClose repair: the sentinel is handed on to the next waiter, the request fails with ClosedPoolError
 G3S(t) == /\ Pc(t) = "g3s"
-          /\ queue' = Append(queue, SENT)
+          /\ queue' = IF Len(queue) < MaxSize THEN Append(queue, SENT) ELSE queue   \* put(block=False); Full is swallowed
           /\ Set(t, [loc[t] EXCEPT !.pc = "p2", !.conn = NONE, !.err = "ClosedPoolError"])
           /\ UNCHANGED <<ptr, open, wire, holds, outs, got, cur, dropped, fresh, script, res>>
 \* `return conn or self._new_conn()`
@@ -220,8 +220,10 @@ P3(t) == /\ Pc(t) = "p3"
                /\ UNCHANGED open
             ELSE \* queue.Full: close the connection; FullPoolError when block, else log the size
                /\ open' = open \ {loc[t].conn} /\ UNCHANGED queue
+               \* (WakeOnClose repair: a full *orphaned* queue is the closed-pool arm, not an error)
                /\ Set(t, [loc[t] EXCEPT !.pc = IF Dev("D12") /\ ~Block THEN "p3log" ELSE "pend",
-                                         !.err = IF Block /\ @ = "" THEN "FullPoolError" ELSE @])
+                                         !.err = IF Block /\ @ = "" /\ ~("WakeOnClose" \in Repairs /\ ptr = "closed")
+                                                 THEN "FullPoolError" ELSE @])
          /\ holds' = [holds EXCEPT ![t] = {}]
          /\ UNCHANGED <<ptr, wire, outs, got, cur, dropped, fresh, script, res>>
 \* deviation D12 (repaired in the tree): the log call evaluates self.pool.qsize() again
@@ -303,7 +305,7 @@ ThreadNext(t) ==
 CloserNext(k) == \/ Crit(C0(k), k, "test") \/ Crit(C1(k), k, "swap") \/ Crit(C2(k), k, "qget") \/ Crit(C3(k), k, "qput")
 
 Next == \/ \E t \in Threads : ThreadNext(t)
-        \/ HasCloser /\ CloserNext(Closer)
+        \/ \E k \in Procs \ Threads : CloserNext(k)
         \/ Local(Drop)
 
 Fair == /\ \A t \in Threads : WF_vars(ThreadNext(t))
